@@ -1,7 +1,7 @@
 """Adapters for USLP primary headers, truncated headers and transfer frames."""
 from __future__ import annotations
 
-from .core import outcome, octs, after_pack, rxbuf
+from .core import outcome, octs, after_pack, rxbuf, decoded
 from .probe import decode_other
 
 
@@ -60,7 +60,7 @@ def op_hdr_rt(a):
 
 def op_hdr_unpack(a):
     def run():
-        d = _hdr_cls(a["trunc"]).unpack(bytes(a["octets"]))
+        d = decoded(lambda: _hdr_cls(a["trunc"]).unpack(bytes(a["octets"])))
         return {"h": proj_hdr(d), "len": d.len(), "repack": octs(d.pack())}
     return outcome(run)
 
